@@ -32,8 +32,8 @@ rule("C01.n", "the list of nodes that get no balance row (skip_nodes) is what th
               "read it (a default list that grows keeps skipping a node in every later set-up - its balance row is missing while its "
               "assets are dispatched)", floor=2)
 rule("C10.f", "a mutable default argument (list / dict / object created in the signature) is never mutated", floor=10)
-rule("C03.f", "optimize() does not modify the problem it is called on (mapping, c, l, u, b are only read or copied): a relaxed "
-              "solve must not clear the boolean flags of the problem itself", floor=1, props=["C03", "C05", "C06", "C20"])
+rule("C03.f", "optimize() does not modify the problem it is called on (mapping, c, l, u, b are only read or copied): the bounds that pin a fixed window reach the solver as set, a relaxed "
+              "solve must not clear the boolean flags of the problem itself", floor=1, props=["C03", "C05", "C06", "C20", "C15"])
 rule("C15.c", "the fix_time_window argument is not rewritten by the set-up (same window reused for every interval of a "
               "split problem, and by the caller afterwards)", floor=2, props=["C15", "C14"])
 
